@@ -25,7 +25,11 @@ RULE = (
     "slot type) with 34 arbitrary octets.  (a) Hypothesis over all of it, "
     "(b) enumeration of the cross product slot type x call type x timeslot x colour code (quick) x packet type x frame "
     "type (thorough) with the remaining fields drawn from the seeded RNG, (c) the 47 frames captured from real repeaters that "
-    "the repository's tests carry (expected values read with the reference dissector).  Distinct = hash of the 72 octets; non-trivial "
+    "the repository's tests carry (expected values read with the reference dissector), (d) deterministic boundary pass, both "
+    "tiers: destination x source id over {0, 1, 0xFF, 0x100, 0xFFFF, 0x10000, 0xFFFFFE, 0xFFFFFF} x sequence {0, 0xFF} x reserved "
+    "octets {all 00, all FF, seeded} x pad {00, FF} (768 frames, sync / wake-up payloads all-00 / all-FF too) and the complete "
+    "product packet type x frame type x slot type x call type x timeslot (2880 frames: every pair of enum members) with the "
+    "colour code cycling and ids / sequence / reserved / pad from the edge lists.  Distinct = hash of the 72 octets; non-trivial "
     "= both ids >= 256 and colour code != 0."
 )
 ASSUMPTIONS = [
@@ -401,6 +405,50 @@ def make_driver(n_quick: int, n_thorough: int):
             t.sample(sub.name, case)
 
         ctx.shards(work, chunks)
+
+        # deterministic boundary pass (both tiers): ids at their edges crossed with each other x sequence 0 / 0xFF x reserved
+        # octets all-00 / all-FF / seeded x pad 00 / FF; every defined member of every enumerated field crossed with every other
+        # (complete product packet x frame x slot x call x timeslot, colour code cycling) with ids from the edge list
+        id_edges = [0, 1, 0xFF, 0x100, 0xFFFF, 0x10000, 0xFFFFFE, 0xFFFFFF]
+        packets, frames_ = sorted(ref.IPSC_PACKET_TYPES), sorted(ref.IPSC_FRAME_TYPES)
+        bcombos = []
+        n = 0
+        for dst in id_edges:
+            for src in id_edges:
+                for seq in (0, 0xFF):
+                    for res in ("00", "ff", "seeded"):
+                        for pad in (0, 0xFF):
+                            bcombos.append(("ids", slots[n % 15], ["PrivateCall", "GroupCall", "GroupCall", calls[n % 4]][n % 4], 1 + n % 2, (n * 7) % 16, packets[n % 4], frames_[n % 6], dst, src, seq, res, pad))
+                            n += 1
+        for pkt in packets:
+            for frm in frames_:
+                for sl in slots:
+                    for cl in calls:
+                        for ts in (1, 2):
+                            bcombos.append(("enum_pairs", sl, cl, ts, n % 16, pkt, frm, id_edges[n % 8], id_edges[(n // 8) % 8], (0, 0xFF, n % 256)[n % 3], ("00", "ff", "seeded")[(n // 3) % 3], (0, 0xFF)[(n // 2) % 2]))
+                            n += 1
+        bchunks = [(i, bcombos[i::64]) for i in range(64)]
+
+        def bwork(chunk, t: Tally):
+            i, part = chunk
+            rng = ctx.rng("boundary", i)
+            for label, sl, cl, ts, cc, pkt, frm, dst, src, seq, res, pad in part:
+                kind = payload_kind(sl, cl)
+                h = _rand_header(rng, sl, cl, ts, cc, pkt, frm)
+                h.update(dst=dst, src=src, seq=seq, pad=pad)
+                if res != "seeded":
+                    for k, ln in RES_LEN.items():
+                        h[k] = res * ln
+                bp = _rand_params(rng, kind)
+                if kind == "raw" and pad in (0, 0xFF) and res != "seeded":
+                    bp = {"octets": (bytes([pad]) * 34).hex()}  # sync / wake-up payload all-00 / all-FF as well
+                case = make_case(h, kind, bp)
+                ctx.run_case(sub.name, sub.oracle, case, t)
+                t.case(sub.name, nontrivial=_classes(case)[0], cls=f"boundary.{label}")
+            t.sample(sub.name, case)
+
+        ctx.shards(bwork, bchunks)
+        ctx.tally.extra["boundary_cases"] = len(bcombos)
         ctx.tally.extra["cross_product_combinations"] = len(combos)
         ctx.tally.extra["reference_vectors_reproduced"] = _REF_VECTORS
         ctx.tally.notes.append(
@@ -412,8 +460,8 @@ def make_driver(n_quick: int, n_thorough: int):
 
 
 SUBCHECKS = [
-    SubCheck("decode", oracle_decode, make_driver(1600, 48000), "raw-bytes and generic-parser decoders: values equal the encoded ones and both paths agree"),
-    SubCheck("reencode_raw", oracle_reencode_raw, make_driver(800, 24000), "as_ipsc_bytes of the frame decoded from raw bytes reproduces the 72 octets"),
-    SubCheck("reencode_generic", oracle_reencode_generic, make_driver(800, 24000), "as_ipsc_bytes of the frame decoded through the generic parser reproduces the 72 octets"),
+    SubCheck("decode", oracle_decode, make_driver(7200, 1000000), "raw-bytes and generic-parser decoders: values equal the encoded ones and both paths agree"),
+    SubCheck("reencode_raw", oracle_reencode_raw, make_driver(3200, 500000), "as_ipsc_bytes of the frame decoded from raw bytes reproduces the 72 octets"),
+    SubCheck("reencode_generic", oracle_reencode_generic, make_driver(3200, 500000), "as_ipsc_bytes of the frame decoded through the generic parser reproduces the 72 octets"),
 ]
 PREDICATES = {}
